@@ -633,7 +633,7 @@ func ruleLoadedDocAnyJSON(c *Ctx) {
 }
 
 func init() {
-	registerRule("designated-before-decoded", 2, "on every path of the reference resolver the value located for a reference is tested for designating nothing before it is decoded into the target", ruleDesignatedBeforeDecoded)
+	registerRule("designated-before-decoded", 3, "on every path of the reference resolver the value located for a reference is tested for designating nothing before it is decoded into the target", ruleDesignatedBeforeDecoded)
 }
 
 // ruleDesignatedBeforeDecoded (C05/C08): on the effect normal form of the reference resolver (helpers inlined),
@@ -821,4 +821,85 @@ func ruleDesignatedBeforeDecoded(c *Ctx) {
 		}
 	}
 	c.ob(rule, fn+":root-only-for-local-refs", fd.Pos(), localOK, localWhy)
+	// a document kept in the context that all the loaders of one expansion share answers a reference only where
+	// it is this loader's own root: the loader of another document must not be served the root's members
+	sharedOK, sharedWhy := true, ""
+	ctxDoc := func(v sval) (svPath, bool) {
+		var out svPath
+		found := false
+		svWalk(v, func(x sval) {
+			q, isP := x.(svPath)
+			if !isP || q.root != recv || len(q.steps) < 2 || q.steps[0] != "context" {
+				return
+			}
+			t := c.simTypeAtPath(svPath{root: recv, steps: q.steps[:2]})
+			if t == nil {
+				return
+			}
+			if it, isI := t.Underlying().(*types.Interface); isI && it.Empty() || isNamed(t, c.Types, "Swagger") {
+				out, found = svPath{root: recv, steps: q.steps[:2]}, true
+			}
+		})
+		return out, found
+	}
+	for _, p := range paths {
+		for _, e := range p.effs {
+			if e.kind != "call" || len(e.call.args) == 0 || !sharedOK {
+				continue
+			}
+			f, _ := e.call.callee.(*types.Func)
+			if !isDecode(f) {
+				continue
+			}
+			doc, has := ctxDoc(e.call.args[0])
+			if !has {
+				continue
+			}
+			own := false
+			n := e.ncond
+			if n > len(p.conds) {
+				n = len(p.conds)
+			}
+			for _, cd := range p.conds[:n] {
+				for _, atom := range flattenAnd(cd.v, cd.neg) {
+					b, isB := atom.v.(svBin)
+					if !isB || b.op != token.NEQ || !atom.neg {
+						continue
+					}
+					for _, pr := range [][2]sval{{b.x, b.y}, {b.y, b.x}} {
+						q, isP := pr[0].(svPath)
+						if isP && q.root == recv && len(q.steps) == 1 && q.steps[0] == "root" && svEqual(pr[1], doc) {
+							own = true
+						}
+					}
+				}
+			}
+			if !own {
+				sharedOK = false
+				sharedWhy = "on some path a value taken from " + svString(doc) + ", which every loader of the expansion shares, is decoded into the target although this loader's own root is not known to be that document: a fragment-only $ref found in another document is answered with the root's member of the same name"
+			}
+		}
+	}
+	c.ob(rule, fn+":shared-document-only-for-its-loader", fd.Pos(), sharedOK, sharedWhy)
+}
+
+// flattenAnd splits a condition that holds (neg false) into the conjuncts that hold, following && and !.
+type condAtom struct {
+	v   sval
+	neg bool
+}
+
+func flattenAnd(v sval, neg bool) []condAtom {
+	switch x := v.(type) {
+	case svNot:
+		return flattenAnd(x.x, !neg)
+	case svBin:
+		if x.op == token.LAND && !neg {
+			return append(flattenAnd(x.x, false), flattenAnd(x.y, false)...)
+		}
+		if x.op == token.LOR && neg {
+			return append(flattenAnd(x.x, true), flattenAnd(x.y, true)...)
+		}
+	}
+	return []condAtom{{v, neg}}
 }
